@@ -3,7 +3,7 @@
    Unparser's output for it, and the tokens of its original source text.
    The model's printer must produce the formatter's tokens, and the model's
    parser must rebuild the tree from both token lists. *)
-From V Require Export Base.Bytes Lang.Grammar Lang.Unparse Lang.UnparseDecl.
+From V Require Export Base.Bytes Lang.Grammar Lang.Unparse Lang.UnparseDecl Lang.Program Lang.Literals.
 
 Definition atom_eqb (a b : atom) : bool :=
   match a, b with
@@ -81,11 +81,52 @@ Definition decl_eqb (a b : decl) : bool :=
 Definition decl_parses_to (ts : list dtk) (d : decl) : bool :=
   match parse_decl ts with Some d' => decl_eqb d d' | None => false end.
 
+Definition ptk_eqb (a b : ptk) : bool :=
+  match a, b with
+  | PE x, PE y => tk_eqb x y
+  | PD x, PD y => dtk_eqb x y
+  | PNL, PNL | PLC, PLC | PRC, PRC | PElse, PElse | POtherwise, POtherwise | PDef, PDef
+  | PNext, PNext | PStop, PStop | PDel, PDel | PConst, PConst => true
+  | PDeco x, PDeco y => bytes_eqb x y
+  | PAfter x, PAfter y => Z.eqb x y
+  | _, _ => false
+  end.
+
+Fixpoint stmt_eqb (a b : stmt) : bool :=
+  match a, b with
+  | SExprS x, SExprS y => estmt_eqb x y
+  | SDecl x, SDecl y => decl_eqb x y
+  | SConst x e, SConst y e' => bytes_eqb x y && expr_eqb e e'
+  | SIf c t, SIf c' t' => expr_eqb c c' && block_eqb t t'
+  | SIfElse c t e, SIfElse c' t' e' => expr_eqb c c' && block_eqb t t' && block_eqb e e'
+  | SOtherwise t, SOtherwise t' => block_eqb t t'
+  | SDef x b1, SDef y b2 => bytes_eqb x y && block_eqb b1 b2
+  | SDeco x b1, SDeco y b2 => bytes_eqb x y && block_eqb b1 b2
+  | SNext, SNext | SStop, SStop => true
+  | SDel e n, SDel e' n' => expr_eqb e e' && Z.eqb n n'
+  | _, _ => false
+  end
+with block_eqb (a b : block) : bool :=
+  match a, b with
+  | BNil, BNil => true
+  | BCons s r, BCons s' r' => stmt_eqb s s' && block_eqb r r'
+  | _, _ => false
+  end.
+
+Definition prog_parses_to (ts : list ptk) (p : program) : bool :=
+  match parse_prog ts with Some q => block_eqb p q | None => false end.
+
 Inductive c23case :=
 | CExpr (id : N) (a : estmt) (fmt_toks src_toks : list tk)
-| CDecl (id : N) (d : decl) (fmt_toks src_toks : list dtk).
+| CDecl (id : N) (d : decl) (fmt_toks src_toks : list dtk)
+(* a whole program: the tree of the real parser+checker, the token stream of the
+   real Unparser's output and of the original source *)
+| CProg (id : N) (p : program) (fmt_toks src_toks : list ptk)
+(* a string (q = 34) or pattern (q = 47) literal: its text in the tree and the
+   bytes the real Unparser wrote between the delimiters *)
+| CLit (id : N) (q : N) (text printed : bytes).
 
-Definition c23_id (c : c23case) : N := match c with CExpr i _ _ _ | CDecl i _ _ _ => i end.
+Definition c23_id (c : c23case) : N := match c with CExpr i _ _ _ | CDecl i _ _ _ | CProg i _ _ _ | CLit i _ _ _ => i end.
 
 Definition c23_ok (c : c23case) : bool :=
   match c with
@@ -94,6 +135,15 @@ Definition c23_ok (c : c23case) : bool :=
   | CDecl _ d fmt_toks src_toks =>
       list_eqb dtk_eqb (unparse_decl d) fmt_toks && decl_parses_to fmt_toks d
       && decl_parses_to src_toks d
+  | CProg _ p fmt_toks src_toks =>
+      wf_block p && list_eqb ptk_eqb (unparse_prog p) fmt_toks && prog_parses_to fmt_toks p
+      && prog_parses_to src_toks p
+  | CLit _ q text printed =>
+      imgb q text && bytes_eqb (esc q text) printed &&
+      match unq q (printed ++ [q]) with
+      | Some (t, []) => bytes_eqb t text
+      | _ => false
+      end
   end.
 
 Definition mismatches (l : list c23case) : list N := failing c23_ok c23_id l.
